@@ -450,7 +450,7 @@ def c19_r10(ctx):
                     co = render(strip(s2.operand(s['rv']['o'][0])))
                     m = re.search(r', (arg\d)\)$', co)
                     ctx.inst('local_block_info|global-id', {'coord': co, 'id': gid})
-                    if not m or m.group(1) not in gid:
+                    if not m or not re.search(r'(?<![\^\w])' + m.group(1) + r'\b', gid):
                         ctx.viol('%s|local-global-id' % lf.path, s['at'], 'a local replica\'s global id is `%s`, which does not depend on its replica index `%s`: '
                                  'replicas of one block would share a global index' % (gid, m.group(1) if m else co), None)
                     elif gid != m.group(1):
